@@ -119,7 +119,9 @@ def enc_value_ast(node):
         return w_str(node.name.value, 16)
     if isinstance(node, A.ListValueNode):
         return W(17, [], [enc_value_ast(v) for v in node.values])
-    raise OutOfFragment("input object literal")
+    if isinstance(node, A.ObjectValueNode):
+        return W(18, [], [w_pair(f.name.value, enc_value_ast(f.value)) for f in node.fields])
+    raise OutOfFragment("value node kind")
 
 
 def enc_default(x):
@@ -150,7 +152,7 @@ def enc_fields(fields):
 
 
 def enc_schema(schema):
-    from graphql import (GraphQLEnumType, GraphQLInterfaceType, GraphQLObjectType,
+    from graphql import (GraphQLEnumType, GraphQLInputObjectType, GraphQLInterfaceType, GraphQLObjectType,
                          GraphQLUnionType, is_specified_scalar_type)
     entries = []
     for name, t in schema.type_map.items():
@@ -173,6 +175,15 @@ def enc_schema(schema):
             if t.resolve_type is not None:
                 raise OutOfFragment("resolve_type")
             d = W(44, [], [w_list([w_str(m.name) for m in t.types])])
+        elif isinstance(t, GraphQLInputObjectType):
+            if t.out_type is not GraphQLInputObjectType.out_type:
+                raise OutOfFragment("input object out_type")
+            fs = []
+            for fn, f in t.fields.items():
+                if getattr(f, "out_name", None):
+                    raise OutOfFragment("out_name")
+                fs.append(W(30, [], [w_str(fn), enc_type(f.type), enc_default(f)]))
+            d = W(46, [1 if t.is_one_of else 0], [w_list(fs)])
         else:
             raise OutOfFragment(f"type kind of {name}")
         entries.append(W(40, [], [w_str(name), d]))
@@ -271,6 +282,8 @@ def enc_json_value(v):
         return w_str(v, 13)
     if isinstance(v, list):
         return W(17, [], [enc_json_value(x) for x in v])
+    if isinstance(v, dict) and all(isinstance(k, str) for k in v):
+        return W(18, [], [w_pair(k, enc_json_value(x)) for k, x in v.items()])
     raise OutOfFragment("variable value kind")
 
 
@@ -366,6 +379,8 @@ def canon_wvalue(w):
         return ("enum", s_of(ints))
     if tag == 17:
         return ("list", tuple(canon_wvalue(k) for k in kids))
+    if tag == 18:
+        return ("obj", tuple((s_of(kv[2][0][1]), canon_wvalue(kv[2][1])) for kv in kids))
     return ("?", tag)
 
 
@@ -430,11 +445,16 @@ def enc_pyjson(v):
 
 def canon_pyarg(v, t):
     """A keyword argument received by a resolver, read at its declared type."""
-    from graphql import GraphQLEnumType, GraphQLList, GraphQLNonNull
+    from graphql import GraphQLEnumType, GraphQLInputObjectType, GraphQLList, GraphQLNonNull
     while isinstance(t, GraphQLNonNull):
         t = t.of_type
     if v is None:
         return ("null",)
+    if isinstance(t, GraphQLInputObjectType):
+        if isinstance(v, dict):
+            return ("obj", tuple((k, canon_pyarg(x, t.fields[k].type) if k in t.fields else ("?", k))
+                                 for k, x in v.items()))
+        return ("?", repr(v))
     if isinstance(t, GraphQLList):
         if isinstance(v, list):
             return ("list", tuple(canon_pyarg(x, t.of_type) for x in v))
@@ -608,6 +628,22 @@ class GSchema:
             self.unions[f"U{u}"] = r.sample(self.objects[1:], k)
         self.leafs = SCALARS + list(self.enums)
         self.composites = self.objects[1:] + self.ifaces + list(self.unions)
+        # input object types: fields of leaf types or of earlier input types (no cycles)
+        self.inputs = {}          # name -> (is_one_of, [(field, typestr, default | None)])
+        for i in range(r.choice([0, 1, 2, 2, 3])):
+            fs = []
+            for fn in r.sample(["p", "q", "r", "s", "t"], r.randint(1, 4)):
+                base = r.choice(list(self.inputs)) if self.inputs and r.random() < 0.3 else r.choice(self.leafs)
+                ts = wrap(r.choice(IN_WRAPS), base)
+                default = self.lit(parse_type(ts), allow_null=True) if r.random() < 0.35 else None
+                fs.append((fn, ts, default))
+            self.inputs[f"In{i}"] = (False, fs)
+        if r.random() < 0.45:
+            fs = []
+            for fn in r.sample(["a", "b", "c"], r.randint(2, 3)):
+                base = r.choice(list(self.inputs)) if self.inputs and r.random() < 0.3 else r.choice(self.leafs)
+                fs.append((fn, wrap(r.choice(["T", "T", "[T]", "[T!]"]), base), None))
+            self.inputs["Pick"] = (True, fs)
         self.fields = {}      # type -> list of (name, typestr, args[(name, typestr, default|None)])
         for i in self.ifaces:
             inherited = list(self.fields.get(self.iface_parent.get(i), []))
@@ -661,6 +697,8 @@ class GSchema:
         if r.random() < 0.45:
             for an in r.sample(["x", "y", "z", "w"], r.randint(1, 3)):
                 abase, apat = r.choice(self.leafs), r.choice(IN_WRAPS)
+                if self.inputs and r.random() < 0.3:
+                    abase = r.choice(list(self.inputs))
                 at = wrap(apat, abase)
                 default = None
                 if r.random() < 0.5:
@@ -684,19 +722,39 @@ class GSchema:
         return (fn, ts, args)
 
     # literal text of a valid constant for an input type
-    def lit(self, t, allow_null=False, depth=0):
+    def lit(self, t, allow_null=False, depth=0, vh=None):
+        """vh(typestr, has_default) -> '$var' : optional hook that may put variables inside."""
         r = self.rng
         if t[0] == "nn":
-            return self.lit(t[1], False, depth)
+            return self.lit(t[1], False, depth, vh)
         if allow_null and r.random() < 0.12:
             return "null"
         if t[0] == "list":
             if r.random() < 0.15 and depth < 2:
                 inner = t[1][1] if t[1][0] == "nn" else t[1]
                 if inner[0] == "named":
-                    return self.lit(inner, False, depth + 1)       # list of one
-            return "[" + ", ".join(self.lit(t[1], True, depth + 1) for _ in range(r.randint(0, 3))) + "]"
+                    return self.lit(inner, False, depth + 1, vh)       # list of one
+            return "[" + ", ".join(self.lit(t[1], True, depth + 1, vh) for _ in range(r.randint(0, 3))) + "]"
         n = t[1]
+        if n in self.inputs:
+            one_of, fs = self.inputs[n]
+            if one_of:
+                fn, ts, _ = r.choice(fs)
+                ft = parse_type(ts)
+                if vh and r.random() < 0.3:
+                    return "{" + f"{fn}: {vh(ts + '!', False)}" + "}"      # variable of non-null type
+                return "{" + f"{fn}: {self.lit(ft, False, depth + 1, vh)}" + "}"
+            parts = []
+            for fn, ts, default in fs:
+                required = ts.endswith("!") and default is None
+                if not required and r.random() < 0.4:
+                    continue
+                if vh and r.random() < 0.25:
+                    parts.append(f"{fn}: {vh(ts, default is not None)}")
+                else:
+                    parts.append(f"{fn}: {self.lit(parse_type(ts), True, depth + 1, vh)}")
+            r.shuffle(parts)
+            return "{" + ", ".join(parts) + "}"
         if n == "Int":
             return str(r.choice([0, 1, -1, 7, 42, -300, 2147483647, -2147483648]))
         if n == "Float":
@@ -733,6 +791,9 @@ class GSchema:
             out.append("type Mutation " + fields("Mutation"))
         for u, ms in self.unions.items():
             out.append(f"union {u} = " + " | ".join(ms))
+        for n, (one_of, fs) in self.inputs.items():
+            body = "\n".join(f"  {fn}: {ts}" + (f" = {d}" if d is not None else "") for fn, ts, d in fs)
+            out.append(f"input {n}" + (" @oneOf " if one_of else " ") + "{\n" + body + "\n}")
         return "\n".join(out)
 
 
@@ -798,7 +859,14 @@ class DocGen:
                 parts.append(f"{an}: [{self.var_for(item_t, False)}, {self.gs.lit(it[1], True)}]")
                 self.features.add("var_in_list")
             else:
-                parts.append(f"{an}: {self.gs.lit(parse_type(at), True)}")
+                vh = None
+                if named(parse_type(at)) in self.gs.inputs:
+                    self.features.add("input_object_literal")
+                    if r.random() < 0.5:
+                        def vh(ts, has_default):
+                            self.features.add("var_in_input_object")
+                            return self.var_for(ts, has_default)
+                parts.append(f"{an}: {self.gs.lit(parse_type(at), True, 0, vh)}")
         r.shuffle(parts)
         return "(" + ", ".join(parts) + ")" if parts else ""
 
@@ -942,6 +1010,17 @@ class DocGen:
                 return self.json_value(t[1], False, depth + 1)        # a list of one
             return [self.json_value(t[1], True, depth + 1) for _ in range(r.randint(0, 3))]
         n = t[1]
+        if n in gs.inputs:
+            one_of, fs = gs.inputs[n]
+            if one_of:
+                fn, ts, _ = r.choice(fs)
+                return {fn: self.json_value(parse_type(ts), False, depth + 1)}
+            out = {}
+            for fn, ts, default in fs:
+                required = ts.endswith("!") and default is None
+                if required or r.random() < 0.6:
+                    out[fn] = self.json_value(parse_type(ts), True, depth + 1)
+            return out
         if n == "Int":
             return r.choice([0, 3, -9, 2147483647, -2147483648, 100])
         if n == "Float":
